@@ -26,7 +26,7 @@ CONSTANTS Names,      \* finite universe of identifiers (variables and parameter
 
 UNB == [t |-> "unb"]
 EmptyFrame == [n \in Names |-> UNB]
-BuiltinNames == {"map", "filter", "reduce", "every", "some", "sort_by", "sum", "max", "len", "range"}
+BuiltinNames == {"map", "filter", "reduce", "every", "some", "sort_by", "sort", "sum", "max", "len", "range"}
 Keywords == {"if", "then", "else", "true", "false", "null", "and", "or", "inputs", "constants"}
 
 ErrC(c) == [t |-> "err", c |-> c]          \* error with a class: unbound / defined / reserved / type / arity / depth / notfn
@@ -129,7 +129,7 @@ BindArgs(ps, args) ==
 BiArity(name) == CASE name \in {"map", "filter", "every", "some", "sort_by"} -> [lo |-> 2, hi |-> 2]
                    [] name = "reduce" -> [lo |-> 3, hi |-> 3]
                    [] name \in {"sum", "max"} -> [lo |-> 1, hi |-> 99]
-                   [] name = "len" -> [lo |-> 1, hi |-> 1]
+                   [] name \in {"len", "sort"} -> [lo |-> 1, hi |-> 1]
                    [] name = "range" -> [lo |-> 1, hi |-> 2]
 FnCanAccept(f, n) == IF IsFn(f) THEN CanAccept(f.ps, n) ELSE n >= BiArity(f.name).lo /\ n <= BiArity(f.name).hi
 
@@ -242,6 +242,8 @@ ApplyFn(f, args, env, d) ==
               ELSE LET ks == [i \in 1..Len(args[1].xs) |-> ApplyFn(args[2], <<args[1].xs[i]>>, env, d + 2)] IN
                    IF \E i \in 1..Len(ks) : IsE(ks[i]) THEN Unk
                    ELSE IF MutuallyComparable(ks) THEN List(StableSort(args[1].xs, ks)) ELSE Unk
+         [] f.name = "sort" -> IF ~IsList(args[1]) THEN ErrC("type")
+                               ELSE IF MutuallyComparable(args[1].xs) THEN List(StableSort(args[1].xs, args[1].xs)) ELSE Unk
          [] f.name = "sum" -> LET xs == IF Len(args) = 1 /\ IsList(args[1]) THEN args[1].xs ELSE args IN
                               IF xs = <<>> \/ \E i \in 1..Len(xs) : ~IsNum(xs[i]) THEN ErrC("type") ELSE SumOf(xs)
          [] f.name = "max" -> LET xs == IF Len(args) = 1 /\ IsList(args[1]) THEN args[1].xs ELSE args IN
@@ -252,8 +254,10 @@ ApplyFn(f, args, env, d) ==
                                      IF IsErr(rr) THEN ErrC("type") ELSE rr
 
 \* every broadcasting operator: the law of BlotsOps (both operands are evaluated first, also for && || ??)
-ScalarBin(o, a, b) == LET x == BinOp(o, a, b) IN
-                      IF IsErr(x) THEN ErrC("type") ELSE x
+\* (an operand the model leaves open - the result of inexact arithmetic - leaves the result open too)
+ScalarBin(o, a, b) == IF a = Unk \/ b = Unk THEN Unk
+                      ELSE LET x == BinOp(o, a, b) IN
+                           IF IsErr(x) THEN ErrC("type") ELSE x
 
 Eval(e, env, d) ==
   CASE e.k = "num"  -> Res(Fin(e.v), env)
